@@ -33,6 +33,9 @@ Verdict(e) ==
      ELSE IF o.exit # 0 /\ (o.created \/ o.fs_changed) THEN "cli-failed-run-touched-the-file-system"
      ELSE IF o.overwrote THEN "cli-existing-file-overwritten"
      ELSE IF ~NeverOverwrite(a, o) THEN "cli-wrote-at-an-existing-path"
+     \* "saves to the REQUESTED new file": whatever appeared in the directory appeared at the path that was given
+     \* (or, for a dangling link, at the place the link names)
+     ELSE IF "created_elsewhere" \in DOMAIN o /\ o.created_elsewhere THEN "cli-file-created-at-a-path-that-was-not-requested"
      ELSE IF a.help /\ o.exit = 0 THEN (IF o.stdout = "help" /\ ~o.created /\ ~o.fs_changed THEN "ok" ELSE "cli-help-run-emitted-or-wrote-something")
      ELSE IF o.exit = 0 /\ o.stdout = "help" THEN "cli-help-with-zero-status"
      ELSE IF o.exit = 0 /\ ~o.equals_api THEN "cli-output-differs-from-api-result"
